@@ -19,57 +19,68 @@
 (*            only if the publisher retained it                        (C01, C07)         *)
 (*   Bounded  no more copies than twice the session's matching subscriptions              *)
 EXTENDS Integers, FiniteSets, Sequences, TLC, Json
-VARIABLES l, subs, pubs, recv, live, order, cid, left
+VARIABLES l, subs, pubs, recv, live, order, cid, left, w
 T == INSTANCE Topics
 Trace == ndJsonDeserialize("trace.ndjson")
 Ev == Trace[l]
-vars == <<l, subs, pubs, recv, live, order, cid, left>>
+vars == <<l, subs, pubs, recv, live, order, cid, left, w>>
 Dom(f) == DOMAIN f
 Get(f, k, d) == IF k \in DOMAIN f THEN f[k] ELSE d
 Upd(f, k, v) == (k :> v) @@ f
 Filters(fs) == {fs[i].f : i \in 1..Len(fs)}
 
-TInit == TLCSet(1, 0) /\ l = 1 /\ subs = {} /\ pubs = <<>> /\ recv = <<>> /\ live = {} /\ order = <<>> /\ cid = <<>> /\ left = {}
+\* w: what is known of wills - will: connection -> [t, p, q, r, sent (index of its CONNECT)]; disc: connections that sent DISCONNECT;
+\* reg: connections whose session the node registered; gone: connections that are over
+NoWills == [will |-> <<>>, disc |-> {}, reg |-> {}, gone |-> {}]
+TInit == TLCSet(1, 0) /\ l = 1 /\ subs = {} /\ pubs = <<>> /\ recv = <<>> /\ live = {} /\ order = <<>> /\ cid = <<>> /\ left = {} /\ w = NoWills
 
 \* subs: [c, f, id, req (index of the SUBSCRIBE), ack (index of the SUBACK, 0), unreq, unack (UNSUBSCRIBE / UNSUBACK indices, 0)]
 SendSubscribe ==
   /\ Ev.op = "cli.send" /\ Ev.kind = "SUBSCRIBE" /\ "dropped" \notin DOMAIN Ev
   /\ subs' = subs \cup {[c |-> Ev.c, f |-> f, id |-> Ev.id, req |-> l, ack |-> 0, unreq |-> 0, unack |-> 0] : f \in Filters(Ev.fs)}
-  /\ UNCHANGED <<pubs, recv, live, order, cid, left>>
+  /\ UNCHANGED <<pubs, recv, live, order, cid, left, w>>
 SubAck ==
   /\ Ev.op = "srv.write" /\ Ev.kind = "SUBACK"
   /\ subs' = {IF s.c = Ev.c /\ s.id = Ev.id /\ s.ack = 0 THEN [s EXCEPT !.ack = l] ELSE s : s \in subs}
-  /\ UNCHANGED <<pubs, recv, live, order, cid, left>>
+  /\ UNCHANGED <<pubs, recv, live, order, cid, left, w>>
 SendUnsubscribe ==
   /\ Ev.op = "cli.send" /\ Ev.kind = "UNSUBSCRIBE" /\ "dropped" \notin DOMAIN Ev
   /\ subs' = {IF s.c = Ev.c /\ s.f \in Filters(Ev.fs) /\ s.unreq = 0 THEN [s EXCEPT !.unreq = l, !.id = Ev.id] ELSE s : s \in subs}
-  /\ UNCHANGED <<pubs, recv, live, order, cid, left>>
+  /\ UNCHANGED <<pubs, recv, live, order, cid, left, w>>
 UnsubAck ==
   /\ Ev.op = "srv.write" /\ Ev.kind = "UNSUBACK"
   /\ subs' = {IF s.c = Ev.c /\ s.unreq > 0 /\ s.unack = 0 /\ s.id = Ev.id THEN [s EXCEPT !.unack = l] ELSE s : s \in subs}
-  /\ UNCHANGED <<pubs, recv, live, order, cid, left>>
+  /\ UNCHANGED <<pubs, recv, live, order, cid, left, w>>
 \* pubs: payload -> [c, id, t, r, q, sent, acked]; order: topic -> sequence of retained payloads in the order they were sent
 SendPublish ==
   /\ Ev.op = "cli.send" /\ Ev.kind = "PUBLISH" /\ "dropped" \notin DOMAIN Ev /\ Ev.p # ""
   /\ Ev.p \notin Dom(pubs)
   /\ pubs' = Upd(pubs, Ev.p, [c |-> Ev.c, id |-> Ev.id, t |-> Ev.t, r |-> Ev.r, q |-> Ev.q, sent |-> l, acked |-> 0])
   /\ order' = IF Ev.r THEN Upd(order, Ev.t, Append(Get(order, Ev.t, <<>>), Ev.p)) ELSE order
-  /\ UNCHANGED <<subs, recv, live, cid, left>>
+  /\ UNCHANGED <<subs, recv, live, cid, left, w>>
 PubAck ==
   /\ Ev.op = "srv.write" /\ Ev.kind \in {"PUBACK", "PUBCOMP"}
   /\ pubs' = [p \in Dom(pubs) |-> IF pubs[p].c = Ev.c /\ pubs[p].id = Ev.id /\ pubs[p].acked = 0 THEN [pubs[p] EXCEPT !.acked = l] ELSE pubs[p]]
-  /\ UNCHANGED <<subs, recv, live, order, cid, left>>
+  /\ UNCHANGED <<subs, recv, live, order, cid, left, w>>
 Connected ==
   /\ Ev.op = "srv.write" /\ Ev.kind = "CONNACK" /\ Ev.code = 0
-  /\ live' = live \cup {Ev.c} /\ UNCHANGED <<subs, pubs, recv, order, cid, left>>
+  /\ live' = live \cup {Ev.c} /\ UNCHANGED <<subs, pubs, recv, order, cid, left, w>>
 SendConnect ==
   /\ Ev.op = "cli.send" /\ Ev.kind = "CONNECT"
-  /\ cid' = Upd(cid, Ev.c, Ev.client) /\ UNCHANGED <<subs, pubs, recv, live, order, left>>
+  /\ cid' = Upd(cid, Ev.c, Ev.client)
+  /\ w' = IF Ev.haswill THEN [w EXCEPT !.will = Upd(w.will, Ev.c, [t |-> Ev.will.t, p |-> Ev.will.p, q |-> Ev.will.q, r |-> Ev.will.r, sent |-> l])] ELSE w
+  /\ UNCHANGED <<subs, pubs, recv, live, order, left>>
 Gone ==
   /\ Ev.op \in {"srv.close", "cli.close"} \/ (Ev.op = "cli.send" /\ Ev.kind = "DISCONNECT")
   /\ live' = live \ {Ev.c}
   /\ left' = IF Ev.op = "srv.close" THEN left ELSE left \cup {Ev.c}          \* the client itself hung up
+  /\ w' = [w EXCEPT !.gone = IF Ev.op = "cli.send" THEN @ ELSE @ \cup {Ev.c},
+                     !.disc = IF Ev.op = "cli.send" /\ "dropped" \notin DOMAIN Ev /\ Ev.c \notin w.gone THEN @ \cup {Ev.c} ELSE @]
   /\ UNCHANGED <<subs, pubs, recv, order, cid>>
+Registered ==
+  /\ Ev.op = "reg.create"
+  /\ w' = [w EXCEPT !.reg = @ \cup {c \in Dom(cid) : Ev.s = "s" \o ToString(c)}]
+  /\ UNCHANGED <<subs, pubs, recv, live, order, cid, left>>
 
 Matching(c, t) == {s \in subs : s.c = c /\ T!Matches(s.f, t)}
 Deliver ==
@@ -81,7 +92,20 @@ Deliver ==
      /\ \E s \in Matching(Ev.c, p.t) : s.req < l /\ (s.unack = 0 \/ p.sent < s.unack)     \* Only
      /\ Get(recv, <<Ev.c, Ev.p>>, 0) < 2 * Cardinality(Matching(Ev.c, p.t))              \* Bounded
   /\ recv' = Upd(recv, <<Ev.c, Ev.p>>, Get(recv, <<Ev.c, Ev.p>>, 0) + 1)
-  /\ UNCHANGED <<subs, pubs, live, order, cid, left>>
+  /\ UNCHANGED <<subs, pubs, live, order, cid, left, w>>
+
+\* Will (C13): the will of a connection is written only once that connection is over, never if it had sent DISCONNECT; with the will's
+\* topic, to sessions that asked for it, once per matching subscription
+WillOf(p) == {c \in Dom(w.will) : w.will[c].p = p}
+WillDeliver ==
+  /\ Ev.op = "srv.write" /\ Ev.kind = "PUBLISH" /\ Ev.p # "" /\ Ev.p \notin Dom(pubs)
+  /\ \E c \in WillOf(Ev.p) :
+       /\ c \in w.gone /\ c \notin w.disc
+       /\ Ev.t = w.will[c].t /\ (Ev.r => w.will[c].r)
+       /\ \E s \in Matching(Ev.c, Ev.t) : s.req < l
+       /\ Get(recv, <<Ev.c, Ev.p>>, 0) < Cardinality(Matching(Ev.c, Ev.t))
+  /\ recv' = Upd(recv, <<Ev.c, Ev.p>>, Get(recv, <<Ev.c, Ev.p>>, 0) + 1)
+  /\ UNCHANGED <<subs, pubs, live, order, cid, left, w>>
 
 Active(s) == s.ack > 0 /\ s.unreq = 0 /\ s.c \in live
 Sequential(ps) == \A i \in 1..(Len(ps) - 1) : pubs[ps[i]].acked > 0 /\ pubs[ps[i]].acked < pubs[ps[i + 1]].sent
@@ -95,7 +119,12 @@ Quiescent ==
         LET ps == order[t] last == ps[Len(ps)] IN
         (Sequential(ps) /\ pubs[last].c \in live) =>
           \A s \in subs : (Active(s) /\ T!Matches(s.f, t)) => Get(recv, <<s.c, last>>, 0) >= 1
-  /\ UNCHANGED <<subs, pubs, recv, live, order, cid, left>>
+  \* Will: a registered session whose client hung up without DISCONNECT (and whose client identifier nobody else used) owes its will
+  \* to every subscription that was complete before its CONNECT
+  /\ \A c \in Dom(w.will) :
+        (c \in w.reg /\ c \in left /\ c \in w.gone /\ c \notin w.disc /\ \A c2 \in Dom(cid) : cid[c2] = cid[c] => c2 = c) =>
+          \A s \in subs : (Active(s) /\ s.ack < w.will[c].sent /\ T!Matches(s.f, w.will[c].t)) => Get(recv, <<s.c, w.will[c].p>>, 0) >= 1
+  /\ UNCHANGED <<subs, pubs, recv, live, order, cid, left, w>>
 
 \* C06 at the writer: in these scenarios every client acknowledges at once and sweeps precede the probe, so no packet
 \* identifier may still be held when everything is quiet
@@ -114,21 +143,21 @@ Probe == /\ Ev.op = "probe" /\ Len(Ev.held) = 0
          /\ \A i \in 1..Len(Ev.subs) : OfLive(Ev.subs[i].s)
          /\ \A i \in 1..Len(Ev.local) : OfLive(Ev.local[i])                  \* the node's registry holds no session that is gone (C11, C20)
          /\ OneSessionPerClientId
-         /\ UNCHANGED <<subs, pubs, recv, live, order, cid, left>>
+         /\ UNCHANGED <<subs, pubs, recv, live, order, cid, left, w>>
 Other ==
   /\ Ev.op # "probe"
   /\ ~(Ev.op = "cli.send" /\ Ev.kind \in {"SUBSCRIBE", "UNSUBSCRIBE", "PUBLISH", "DISCONNECT"} /\ "dropped" \notin DOMAIN Ev)
   /\ ~(Ev.op = "cli.send" /\ Ev.kind = "CONNECT")
   /\ ~(Ev.op = "srv.write" /\ Ev.kind \in {"SUBACK", "UNSUBACK", "PUBACK", "PUBCOMP", "PUBLISH", "CONNACK"})
-  /\ Ev.op \notin {"srv.close", "cli.close", "quiescent", "new", "stall", "process.died"}
-  /\ UNCHANGED <<subs, pubs, recv, live, order, cid, left>>
-New == Ev.op = "new" /\ subs' = {} /\ pubs' = <<>> /\ recv' = <<>> /\ live' = {} /\ order' = <<>> /\ cid' = <<>> /\ left' = {}
-EmptyPublish == Ev.op \in {"cli.send", "srv.write"} /\ Ev.kind = "PUBLISH" /\ Ev.p = "" /\ UNCHANGED <<subs, pubs, recv, live, order, cid, left>>
-Refused == Ev.op = "srv.write" /\ Ev.kind = "CONNACK" /\ Ev.code # 0 /\ UNCHANGED <<subs, pubs, recv, live, order, cid, left>>
+  /\ Ev.op \notin {"srv.close", "cli.close", "quiescent", "new", "stall", "process.died", "reg.create"}
+  /\ UNCHANGED <<subs, pubs, recv, live, order, cid, left, w>>
+New == Ev.op = "new" /\ subs' = {} /\ pubs' = <<>> /\ recv' = <<>> /\ live' = {} /\ order' = <<>> /\ cid' = <<>> /\ left' = {} /\ w' = NoWills
+EmptyPublish == Ev.op \in {"cli.send", "srv.write"} /\ Ev.kind = "PUBLISH" /\ Ev.p = "" /\ UNCHANGED <<subs, pubs, recv, live, order, cid, left, w>>
+Refused == Ev.op = "srv.write" /\ Ev.kind = "CONNACK" /\ Ev.code # 0 /\ UNCHANGED <<subs, pubs, recv, live, order, cid, left, w>>
 
 Step == /\ l <= Len(Trace) /\ l' = l + 1
         /\ \/ New \/ SendSubscribe \/ SubAck \/ SendUnsubscribe \/ UnsubAck \/ SendPublish \/ PubAck \/ Connected \/ Gone
-           \/ Deliver \/ Quiescent \/ Other \/ EmptyPublish \/ Refused \/ Probe \/ SendConnect
+           \/ Deliver \/ WillDeliver \/ Registered \/ Quiescent \/ Other \/ EmptyPublish \/ Refused \/ Probe \/ SendConnect
 TSpec == TInit /\ [][Step]_vars
 HighWater == TLCSet(1, IF TLCGet(1) > l THEN TLCGet(1) ELSE l)
 Accepted == IF TLCGet(1) - 1 = Len(Trace) THEN PrintT("TRACE_ACCEPTED")
